@@ -43,6 +43,8 @@ TRUSTED = [
     'RecursionError or trips the %d s alarm is classed as "does not return" (HANG); the model runs with fuel 6000 '
     'loop iterations; generated terminating cases stay far below both bounds',
     'json output_format of dump_conf_header is checked by the oracle only (not modelled)',
+    'file layer at byte level: encodings utf-8, iso-8859-1, cp1252, utf-16, utf-8-sig judged by the oracle '
+    '(CPython codecs are the reference encode/decode); the Lean model implements utf-8 and iso-8859-1 only',
     'end to end: configure_file() through `meson setup --backend=none` on generated projects, outputs compared byte for byte with '
     'the in-process do_conf_str result (templates that raise are only exercised in-process)',
 ]
@@ -615,6 +617,176 @@ CORPUS: T.List[T.Tuple[str, dict, T.List[str]]] = [
 ]
 
 
+# ------------------------------------------------------------------ file layer as its own tie: bytes in, bytes out
+
+ENCODINGS = ['utf-8', 'iso-8859-1', 'cp1252', 'utf-16', 'utf-8-sig']
+# characters that encode differently (or not at all) in the encodings above; none is a Unicode space/digit/letter-free
+# problem for the scanners: the placeholder syntax is ASCII, so every one of them is "other" text
+ENC_CHARS = {
+    'utf-8': ['\xe9', '\xfc', '\u20ac', '\u4e2d', '\xdf', '\U0001f600'],
+    'utf-8-sig': ['\xe9', '\xfc', '\u20ac', '\u4e2d', '\xdf'],
+    'utf-16': ['\xe9', '\xfc', '\u20ac', '\u4e2d', '\xdf', '\U0001f600'],
+    'iso-8859-1': ['\xe9', '\xfc', '\xdf', '\xa4', '\xff', '\xd7'],
+    'cp1252': ['\xe9', '\xfc', '\xdf', '\u20ac', '\u0152', '\xff', '\u2122'],
+}
+NOT_IN = {'iso-8859-1': ['\u20ac', '\u4e2d'], 'cp1252': ['\u4e2d', '\u0100']}
+BAD_BYTES = {
+    'utf-8': [b'\xff', b'\xc3', b'\xe2\x82', b'\xc0\xaf', b'\xed\xa0\x80'],
+    'utf-8-sig': [b'\xff', b'\xc3'],
+    'cp1252': [b'\x81', b'\x8d', b'\x8f', b'\x90', b'\x9d'],
+    'utf-16': [b'\xff\xfea', b'\xff\xfe\x00\xd8a\x00'],
+}
+
+
+def plain_line(rng, fmt: str, enc: str) -> str:
+    """one template line without define directives: placeholder fragments + filler + characters special to `enc`"""
+    frag = frag_meson if fmt == 'meson' else frag_cmake
+    parts = []
+    for _ in range(rng.randint(0, 5)):
+        r = rng.random()
+        if r < 0.3:
+            parts.append(rng.choice(ENC_CHARS[enc]))
+        else:
+            f = frag(rng)
+            if any(ch in f for ch in '\xe9\u20ac#') and '\u20ac' in f and enc == 'iso-8859-1':
+                f = 'x'
+            parts.append(f.replace('\u20ac', rng.choice(ENC_CHARS[enc])).replace('#', '%'))
+    return ''.join(parts) + rng.choice(ENDINGS)
+
+
+def enc_data(rng, fmt: str, enc: str) -> dict:
+    d = {}
+    for n in rng.sample(DEFINED, rng.randint(0, 4)):
+        r = rng.random()
+        if r < 0.5:
+            v = ''.join(rng.choice(ENC_CHARS[enc] + ['a', ' ', 'Z', '"']) for _ in range(rng.randint(0, 4)))
+        elif r < 0.6 and enc in NOT_IN:
+            v = 'u' + rng.choice(NOT_IN[enc])     # cannot be written in this encoding
+        else:
+            v = rand_value(rng, fmt)
+            if isinstance(v, str) and enc in ('iso-8859-1', 'cp1252'):
+                v = v.replace('\u20ac', '\xe9')
+        d[n] = v
+    return d
+
+
+def ref_file_text(fmt: str, data: dict, text: str):
+    """reference substitution of a whole decoded text (lines keep their CR/LF/CRLF); None outside the oracle's domain"""
+    import io
+    out = []
+    for line in io.StringIO(text, newline='').readlines():
+        st = line.lstrip()
+        if st.startswith('#'):
+            return None
+        if fmt == 'meson':
+            out.append(ref_subst_meson(line, data)[0])
+        else:
+            r = ref_subst_cmake(line, data, fmt == 'cmake@')
+            if r is None:
+                return None
+            out.append(r[0])
+    return ''.join(out)
+
+
+def impl_file_bytes(I, fmt: str, data: dict, enc: str, src_bytes: bytes, src: str, dst: str):
+    """-> (canonical answer, output bytes or None, exception or None)"""
+    U, CD, ME = I
+    with open(src, 'wb') as f:
+        f.write(src_bytes)
+    if os.path.exists(dst):
+        os.unlink(dst)
+    signal.setitimer(signal.ITIMER_REAL, ALARM_S)
+    try:
+        U.do_conf_file(src, dst, CD(dict(data)), fmt, encoding=enc)
+        signal.setitimer(signal.ITIMER_REAL, 0)
+        with open(dst, 'rb') as f:
+            out = f.read()
+        return 'OK|' + ' '.join(str(b) for b in out), out, None
+    except BaseException as e:  # noqa: B036
+        signal.setitimer(signal.ITIMER_REAL, 0)
+        if isinstance(e, (KeyboardInterrupt, SystemExit)):
+            raise
+        if isinstance(e, ME) and str(e).startswith('Could not read input file'):
+            return 'ERR:read', None, e
+        if isinstance(e, ME) and str(e).startswith('Could not write output file'):
+            return 'ERR:write', None, e
+        return err_class(e, ME), None, e
+
+
+def oracle_file_bytes(ctx: Ctx, fmt: str, data: dict, enc: str, src_bytes: bytes, out: T.Optional[bytes],
+                      exc: T.Optional[BaseException], ME, where: str = 'do_conf_file') -> None:
+    """The property at the byte level: output = encode(substitute(decode(input))) in the *same* encoding - every byte
+    outside a placeholder equals the input byte; input that is not valid in the encoding is reported as a
+    MesonException."""
+    case = {'kind': 'fileb', 'fmt': fmt, 'data': data_json(data), 'enc': enc, 'src': list(src_bytes)}
+    try:
+        text = src_bytes.decode(enc)
+    except UnicodeError:
+        if out is not None or not isinstance(exc, ME):
+            ctx.violation('fileb-undecodable:' + json.dumps(case, sort_keys=True),
+                          f'{where}: input invalid in {enc} gives {type(exc).__name__ if exc else "output"} '
+                          f'instead of a MesonException', case)
+        return
+    if out is None:
+        if exc is not None and not isinstance(exc, (ME, _Hang, RecursionError)):
+            ctx.violation('fileb-exception:' + json.dumps(case, sort_keys=True),
+                          f'{where}: {type(exc).__name__} escapes', case)
+        return
+    if text == '':
+        return
+    want_text = ref_file_text(fmt, data, text)
+    if want_text is None:
+        ctx.tag('oracle:fileb-skipped')
+        return
+    try:
+        want = want_text.encode(enc)
+    except UnicodeError:
+        ctx.violation('fileb-unencodable:' + json.dumps(case, sort_keys=True),
+                      f'{where}: a value that {enc} cannot represent was written', {**case, 'got': list(out)})
+        return
+    ctx.tag('oracle:fileb:' + enc)
+    if out != want:
+        plain = not any(ch in text for ch in '@$#')
+        ctx.violation('fileb:' + json.dumps(case, sort_keys=True),
+                      f'{where} ({enc}): ' + ('placeholder-free input not copied byte for byte' if plain else
+                                              'bytes outside the placeholders changed / wrong encoding of values'),
+                      {**case, 'got': list(out), 'want': list(want)})
+
+
+def file_bytes_stream(ctx: Ctx, I, rng, cases, n: int) -> None:
+    scratch = common.scratch_dir('mverif-c14-fb-')
+    try:
+        src, dst = os.path.join(scratch, 'in.bin'), os.path.join(scratch, 'out.bin')
+        for i in range(n):
+            enc = ENCODINGS[i % len(ENCODINGS)]
+            fmt = rng.choice(FORMATS)
+            data = enc_data(rng, fmt, enc)
+            r = rng.random()
+            if r < 0.07 and enc in BAD_BYTES:
+                pre = ''.join(plain_line(rng, fmt, enc) for _ in range(rng.randint(0, 2)))
+                src_bytes = (pre.encode(enc) if pre else b'') + rng.choice(BAD_BYTES[enc]) + b'\n'
+                if enc == 'utf-16':
+                    src_bytes = rng.choice(BAD_BYTES[enc])
+            elif r < 0.25:
+                text = ''.join(rng.choice(ENC_CHARS[enc] + ['a', ' ', '\n', '\r\n', '\r', '\\', '{', '}', 'word'])
+                               for _ in range(rng.randint(1, 12)))
+                src_bytes = text.encode(enc)
+            else:
+                text = ''.join(plain_line(rng, fmt, enc) for _ in range(rng.randint(1, 4))) or 'x'
+                src_bytes = text.encode(enc)
+            ans, out, exc = impl_file_bytes(I, fmt, data, enc, src_bytes, src, dst)
+            ctx.tag('fileb:' + enc + ':' + ans.split('|')[0])
+            oracle_file_bytes(ctx, fmt, data, enc, src_bytes, out, exc, I[2])
+            if enc in ('utf-8', 'iso-8859-1'):
+                cases.append(('fileb', {'fmt': fmt, 'data': data_json(data), 'enc': enc, 'src': list(src_bytes)},
+                              f'fileb {"latin1" if enc == "iso-8859-1" else "utf8"}|{fmt}|{data_items(data)}|'
+                              + ' '.join(str(b) for b in src_bytes), ans))
+            else:
+                ctx.count()
+    finally:
+        common.rmtree(scratch)
+
+
 # ------------------------------------------------------------------ end to end: configure_file() through meson setup
 
 def meson_str(v: str) -> str:
@@ -649,6 +821,26 @@ def e2e_stream(ctx: Ctx, I, rng, nproj: int, nfiles: int) -> None:
             j = 0
             while j < nfiles:
                 fmt = rng.choice(FORMATS)
+                if j < 2 or rng.random() < 0.35:
+                    # configure_file(encoding: …): template bytes in that encoding, judged at the byte level
+                    enc = ENCODINGS[1:][(pi + j + rng.randint(0, 3)) % 4]
+                    data = {k: v for k, v in enc_data(rng, fmt, enc).items()
+                            if not (isinstance(v, str) and any(ch in v for ch in '\x0c\x1f'))}
+                    text = ''.join(plain_line(rng, fmt, enc) for _ in range(rng.randint(1, 4))).replace('\x0c', ' ') \
+                        .replace('\x1f', ' ') or 'x'
+                    src_bytes = text.encode(enc)
+                    ans, out, _exc = impl_file_bytes(I, fmt, data, enc, src_bytes, os.path.join(src, f't{j}.in'),
+                                                     os.path.join(scratch, 'probe.out'))
+                    if out is None:
+                        continue
+                    mb.append(f'd{j} = configuration_data()')
+                    for k, v in data.items():
+                        mb.append(f'd{j}.set({meson_str(k)}, {meson_val(v)})')
+                    mb.append(f"configure_file(input: 't{j}.in', output: 't{j}.out', format: '{fmt}', "
+                              f"encoding: '{enc}', configuration: d{j})")
+                    expect.append((f't{j}.out', 'bytes', fmt, data, (enc, src_bytes), out))
+                    j += 1
+                    continue
                 data = {k: v for k, v in rand_data(rng, fmt).items()
                         if not (isinstance(v, str) and any(ch in v for ch in '\x0c\x1f'))}
                 lines = [ln for ln in (rand_line(rng, fmt) for _ in range(rng.randint(1, 5)))
@@ -693,10 +885,20 @@ def e2e_stream(ctx: Ctx, I, rng, nproj: int, nfiles: int) -> None:
                                   'impl': res.stdout[-600:], 'model': 'setup succeeds (every template is OK in-process)'})
                 continue
             for name, kind, fmt, data, text, want in expect:
-                with open(os.path.join(src, 'build', name), encoding='utf-8', newline='') as f:
-                    got = f.read()
                 ctx.count()
                 ctx.tag('e2e:' + kind)
+                if kind == 'bytes':
+                    enc, src_bytes = text
+                    with open(os.path.join(src, 'build', name), 'rb') as f:
+                        gotb = f.read()
+                    if gotb != want:
+                        ctx.disagreement({'kind': 'e2e-bytes', 'input': {'fmt': fmt, 'data': data_json(data), 'enc': enc,
+                                                                         'src': list(src_bytes)},
+                                          'impl': list(gotb), 'model': list(want)})
+                    oracle_file_bytes(ctx, fmt, data, enc, src_bytes, gotb, None, I[2], where='configure_file(encoding:)')
+                    continue
+                with open(os.path.join(src, 'build', name), encoding='utf-8', newline='') as f:
+                    got = f.read()
                 if kind == 'file':
                     if got != want:
                         ctx.disagreement({'kind': 'e2e-file', 'input': {'fmt': fmt, 'data': data_json(data), 'text': text},
@@ -852,6 +1054,9 @@ def _run(ctx: Ctx, I, U, rng) -> None:
     finally:
         common.rmtree(scratch)
 
+    # -- file layer as its own tie: bytes in, bytes out, five encodings
+    file_bytes_stream(ctx, I, rng, cases, ctx.scale(2500, 30000))
+
     # -- end to end: configure_file() evaluated by meson setup (thorough tier: 16 projects; quick: 2)
     e2e_stream(ctx, I, rng, ctx.scale(2, 16), ctx.scale(6, 12))
 
@@ -877,6 +1082,8 @@ def _run(ctx: Ctx, I, U, rng) -> None:
 def nontrivial(kind: str, inp, model_ans: str) -> bool:
     if kind.startswith('conf'):
         return model_ans != f'OK|{show_lines(inp["lines"])}||0' and model_ans != f'OK|{show_lines(inp["lines"])}||1'
+    if kind == 'fileb':
+        return model_ans != 'OK|' + ' '.join(str(b) for b in inp['src'])
     if kind.startswith('file'):
         return not model_ans.startswith(f'OK|{enc(inp["text"])}|')
     if kind == 'seg':
@@ -905,6 +1112,7 @@ def search(ctx: Ctx, disagreements: T.List[dict]) -> None:
     old = signal.signal(signal.SIGALRM, _on_alarm)
     try:
         todo: T.List[T.Tuple[str, dict, T.List[str]]] = []
+        fbytes: T.List[dict] = []
         for d in disagreements:
             inp = d.get('input')
             k = d.get('kind', '')
@@ -915,6 +1123,8 @@ def search(ctx: Ctx, disagreements: T.List[dict]) -> None:
                     todo.append((inp['fmt'], data, [ln]))
                     for nb in itertools.islice(neighbours(ln), 120):
                         todo.append((inp['fmt'], data, [nb]))
+            elif k in ('fileb', 'e2e-bytes'):
+                fbytes.append(inp)
             elif k.startswith('file'):
                 data = data_unjson(inp['data'])
                 todo.append((inp['fmt'], data, inp['text'].splitlines(True)))
@@ -925,6 +1135,9 @@ def search(ctx: Ctx, disagreements: T.List[dict]) -> None:
             elif k.startswith('hdr'):
                 data = data_unjson(inp['data'])
                 search_header(ctx, I, inp['ofmt'], inp['macro'], data, {k2: None for k2 in data})
+        search_file_bytes(ctx, I, rng, fbytes)
+        if ctx.violations:
+            return
         todo += CORPUS
         for fmt, data, lines in todo:
             ans, raw = impl_conf(I, fmt, data, lines)
@@ -948,6 +1161,31 @@ def search(ctx: Ctx, disagreements: T.List[dict]) -> None:
     finally:
         signal.setitimer(signal.ITIMER_REAL, 0)
         signal.signal(signal.SIGALRM, old)
+
+
+def search_file_bytes(ctx, I, rng, inputs: T.List[dict], extra: int = 1500) -> None:
+    """byte-level oracle on the disagreeing file cases, then on a fresh stream over all encodings"""
+    scratch = common.scratch_dir('mverif-c14-fb-')
+    try:
+        src, dst = os.path.join(scratch, 'in.bin'), os.path.join(scratch, 'out.bin')
+        for inp in inputs:
+            data = data_unjson(inp['data'])
+            sb = bytes(inp['src'])
+            _ans, out, exc = impl_file_bytes(I, inp['fmt'], data, inp['enc'], sb, src, dst)
+            oracle_file_bytes(ctx, inp['fmt'], data, inp['enc'], sb, out, exc, I[2])
+            if ctx.violations:
+                return
+        for i in range(extra):
+            enc = ENCODINGS[i % len(ENCODINGS)]
+            fmt = rng.choice(FORMATS)
+            data = enc_data(rng, fmt, enc)
+            sb = (''.join(plain_line(rng, fmt, enc) for _ in range(rng.randint(1, 3))) or 'x').encode(enc)
+            _ans, out, exc = impl_file_bytes(I, fmt, data, enc, sb, src, dst)
+            oracle_file_bytes(ctx, fmt, data, enc, sb, out, exc, I[2])
+            if ctx.violations:
+                return
+    finally:
+        common.rmtree(scratch)
 
 
 def search_header(ctx, I, ofmt, macro, data, descs) -> None:
@@ -982,6 +1220,13 @@ def replay(ctx: Ctx, rep: dict) -> None:
             U = I[0]
             out, miss = U.do_replacement_meson(U.get_variable_regex('meson'), case['line'], I[1](data))
             print('implementation:', repr(out), sorted(miss), ' reference:', ref_subst_meson(case['line'], data))
+        elif kind == 'fileb':
+            search_file_bytes(ctx, I, ctx.rng, [case], extra=0)
+            if ctx.model_available and case['enc'] in ('utf-8', 'iso-8859-1'):
+                data = data_unjson(case['data'])
+                print('model         :', ctx.driver('template', [
+                    f'fileb {"latin1" if case["enc"] == "iso-8859-1" else "utf8"}|{case["fmt"]}|{data_items(data)}|'
+                    + ' '.join(str(b) for b in case['src'])])[0])
         elif kind == 'hdr':
             data = data_unjson(case['data'])
             search_header(ctx, I, case['ofmt'], case.get('macro'), data, case.get('descs') or {})
